@@ -209,7 +209,7 @@ pub fn h_display_map<const N: usize>(len: usize) {
     let _ = s.write_char('}');
     s.start_compare();
     let _ = write!(s, "{}", m);
-    assert!(s.matched(), "C19.Display for Map: '{' + 'key: value' entries joined by ', ' + '}'");
+    assert!(s.matched(), "C19.Display for Map: opening brace, 'key: value' entries joined by ', ', closing brace");
     assert!(model(&m).same(&pre), "C19: formatting never changes the container");
     kani::cover!(true, "reached");
 }
@@ -232,7 +232,7 @@ pub fn h_display_set<const N: usize>(len: usize) {
     let _ = s.write_char('}');
     s.start_compare();
     let _ = write!(s, "{}", st);
-    assert!(s.matched(), "C19.Display for Set: '{' + elements joined by ', ' + '}'");
+    assert!(s.matched(), "C19.Display for Set: opening brace, elements joined by ', ', closing brace");
     assert!(smodel(&st).same(&md), "C19: formatting never changes the container");
     kani::cover!(true, "reached");
 }
